@@ -5,13 +5,16 @@ symmetry operator acts on quaternions as LEFT multiplication by a unit quaternio
 multiplications commute) and relabelling invariance follows if those quaternions form a group. Both
 are decided on the real operator lists and the real quaternion product; the rest of the real pipeline
 (pairing, clip, abs, arccos, min, histogram input) is executed symbolically for 2-3 grains.
-Not encodable: M in [0,1], the ~0 / ~1 limits, the quadrature of Grimmer's density, histogram binning
+Added later: the index formula over contract histograms (t_index_formula), the quadrature of the real theoretical
+density per system (t_theory_density, concrete), the batched variant over a contract pool (t_batched).
+Not encodable: the ~0 / ~1 limits, histogram binning
 for 2000 grains, multiprocessing.Pool ordering.
 """
 
 from __future__ import annotations
 
 import itertools as it
+from fractions import Fraction
 
 import numpy as np
 import z3
@@ -29,7 +32,10 @@ def tasks(tier):
     t = [("t_quat_product", {})]
     t += [("t_symmetry_ops", {"system": s}) for s in SYSTEMS]
     t += [("t_pipeline", {"system": "triclinic", "n_grains": 3}), ("t_batched", {})]
+    t += [("t_index_formula", {"system": s_, "bins": k}) for s_, k in (("triclinic", 3), ("orthorhombic", 2), ("hexagonal", 4))]
+    t += [("t_theory_density", {"system": s_}) for s_ in SYSTEMS]
     if tier == "thorough":
+        t += [("t_index_formula", {"system": s_, "bins": k}) for s_ in SYSTEMS for k in (1, 5, 6)]
         t += [("t_pipeline", {"system": "orthorhombic", "n_grains": 2})]
     return t
 
@@ -152,6 +158,30 @@ def replay_frame(case):
     except AssertionError as e:
         return {"reproduced": True, "detail": f"misorientation_index raises AssertionError for this system (no index at all): {e!r}"}
     return {"reproduced": bool(abs(m1 - m2) > 1e-6), "detail": {"M": float(m1), "M_rotated_frame": float(m2)}}
+
+
+def replay_index_formula(case):
+    """Real misorientation_index against the formula recomputed from the public histogram and theoretical density."""
+    import numpy as np
+    import pydrex
+    from pydrex import geometry as geo
+    from pydrex import stats
+    from scipy.spatial.transform import Rotation
+
+    problems = []
+    for system, seed in (("triclinic", 1), ("monoclinic", 2), ("orthorhombic", 3), ("tetragonal", 4), ("hexagonal", 5)):
+        sysm = getattr(geo.LatticeSystem, system)
+        for A in (Rotation.random(30, random_state=seed).as_matrix(), np.stack([np.eye(3)] * 6)):
+            M = pydrex.misorientation_index(A, sysm)
+            cnt, edges = stats.misorientation_hist(A, sysm)
+            th = np.array([stats.misorientations_random(edges[i], edges[i + 1], sysm) for i in range(len(cnt))])
+            tmax = stats._max_misorientation(sysm)
+            want = tmax / (2 * len(cnt)) * np.abs(th - cnt).sum()
+            if not np.isclose(M, want, rtol=1e-12, atol=1e-14):
+                problems.append(f"{system}: M = {M!r}, formula gives {want!r}")
+            if not (-1e-12 <= M <= 1 + 1e-3):
+                problems.append(f"{system}: M = {M!r} outside [0, 1]")
+    return {"reproduced": bool(problems), "detail": problems[:5] or "index equals the formula"}
 
 
 def replay_closure(case):
@@ -279,8 +309,14 @@ def t_pipeline(sess, system, n_grains):
     with patched((stats, "np", sproxy), (geo, "np", gproxy), (utils, "np", NpProxy()), (stats, "Rotation", RotationStub)):
         paths, info = sym.explore(fn, catch=(Exception,))
     tag = f"pipeline[{system}, {N} grains]"
-    if len(paths) != 1 or paths[0].exc is not None:
-        raise sym.HarnessError(f"{tag}: unexpected paths {paths} {paths[0].exc!r}")
+    for pi, bad in enumerate(pp for pp in paths if pp.exc is not None):
+        # the real pipeline does something to the data that the decreasing-function stand-in does not support
+        # (comparison, masking, arithmetic): not a harness error but a failed obligation, confirmed by the replay
+        sess.prove(f"{tag}: the pipeline only clips, takes |.|, arccos and the minimum of the pair data (path {pi} raises {type(bad.exc).__name__}: {str(bad.exc)[:70]})", bad.pc, z3.BoolVal(False))
+    paths = [pp for pp in paths if pp.exc is None]
+    if not paths:
+        sess.reach.append(solve.QueryResult(f"{tag}: reach", "unknown", None, 0.0))
+        return
     p = only_path(sess, paths)
     qs, r, base, perm, rot = p.value
     rules = poly.Rules().unit_quat(r)
@@ -314,8 +350,134 @@ def t_pipeline(sess, system, n_grains):
     sample(sess, obligation="misorientation datum", system=system, datum0=str(base[0][0].arg)[:200])
 
 
+def t_index_formula(sess, system, bins):
+    """misorientation_index on top of an arbitrary histogram obeying np.histogram(density=True)'s contract
+    (k equal bins on [0, theta_max], non-negative densities, sum density * width = 1) and an arbitrary
+    non-negative theoretical density: the index is (theta_max / 2k) sum_i |theory_i - observed_i| with the
+    theoretical value taken over exactly the bin's edges, hence 0 <= M <= (1 + Q)/2 where Q = sum_i theory_i * width
+    is the quadrature of the theoretical density (Q = 1 +- 1e-3 is what t_theory_density looks at)."""
+    mods = pydrex_modules()
+    diag, stats, geo = mods["diagnostics"], mods["stats"], mods["geometry"]
+    sess.encode(diag.misorientation_index)
+    sysm = getattr(geo.LatticeSystem, system)
+    k = bins
+    sess.bounds["index formula"] = f"{k} bins; arbitrary densities; system {system}"
+    sess.assume_env("np.histogram(density=True, range=(0, theta_max), bins=k) by contract: k + 1 equally spaced edges, densities >= 0 with sum density * (theta_max / k) = 1")
+    calls = {"hist": [], "theory": []}
+
+    def fn():
+        calls["hist"].clear()
+        calls["theory"].clear()
+        c = sym.ctx()
+        tmax = stats._max_misorientation(sysm)
+        cnt = [real(f"h{i}") for i in range(k)]
+        tot = R(0)
+        for x in cnt:
+            c.assume((x >= 0).z3())
+            tot = tot + x * Fraction(tmax, k)
+        c.assume((tot == 1).z3())
+        edges = [R(Fraction(tmax * i, k)) for i in range(k + 1)]
+
+        def hist(orientations, system_, bins_=None):
+            calls["hist"].append((orientations, system_, bins_))
+            return sarr(np.array(cnt, dtype=object)), sarr(np.array(edges, dtype=object))
+
+        def theory(low, high, system_):
+            v = c.ufs.generic("rtheory", R(low), R(high))
+            c.assume((R(v) >= 0).z3())
+            calls["theory"].append((low, high, system_, v))
+            return v
+
+        A = object()
+        with patched((stats, "misorientation_hist", hist), (stats, "misorientations_random", theory)):
+            M = diag.misorientation_index(A, sysm)
+        return A, tmax, cnt, edges, M, list(calls["hist"]), list(calls["theory"])
+
+    with np_installed(diag):
+        paths, _ = sym.explore(fn, catch=(Exception,), max_paths=4096)
+    tag = f"index formula[{system}, {k} bins]"
+    sess.paths[tag] = {"paths": len(paths)}
+    for pi, p in enumerate(paths[:64]):
+        pt = f"{tag} path {pi}"
+        if p.exc is not None:
+            sess.prove(f"{pt}: raises {type(p.exc).__name__}: {str(p.exc)[:80]}", p.pc, z3.BoolVal(False))
+            continue
+        A, tmax, cnt, edges, M, hcalls, tcalls = p.value
+        if pi == 0:
+            sess.satisfiable(f"{tag}: reach", p.pc)
+        ok = (len(hcalls) == 1 and hcalls[0][0] is A and hcalls[0][1] is sysm and len(tcalls) == k
+              and all(tc[2] is sysm for tc in tcalls))
+        sess.prove(f"{pt}: one histogram of the caller's orientations for the caller's system; one theoretical value per bin", p.pc, z3.BoolVal(ok))
+        if not ok:
+            continue
+        sess.prove(f"{pt}: the theoretical value of bin i is taken between that bin's edges", p.pc,
+                   z3.And(*[z3.And(eq(tcalls[i][0], edges[i]), eq(tcalls[i][1], edges[i + 1])) for i in range(k)]))
+        w = Fraction(tmax, k)
+        want = sum((abs(R(tcalls[i][3]) - cnt[i]) for i in range(k)), R(0)) * w / 2
+        sess.prove(f"{pt}: M = (theta_max / 2k) sum |theory - observed|", p.pc, eq(M, want))
+        Q = sum((R(tcalls[i][3]) for i in range(k)), R(0)) * w
+        sess.prove(f"{pt}: 0 <= M <= (1 + Q)/2 with Q the quadrature of the theoretical density", p.pc, z3.And((R(M) >= 0).z3(), (R(M) <= (1 + Q) / 2).z3()))
+        sess.prove(f"{pt}: M = 0 when the observed histogram equals the theoretical one", list(p.pc) + [eq(R(tcalls[i][3]), cnt[i]) for i in range(k)], eq(M, 0))
+    if len(paths) > 64:
+        sess.truncated = True
+
+
+def t_theory_density(sess, system):
+    """Concrete evaluation (no quantified input: one number per lattice system) of the real misorientations_random
+    over the 1-degree bins misorientation_index uses: defined and non-negative on every bin of [0, theta_max] and
+    summing to 1 within the 1e-3 quadrature error the property allows."""
+    mods = pydrex_modules()
+    stats, geo = mods["stats"], mods["geometry"]
+    sess.encode(stats.misorientations_random, stats._max_misorientation)
+    sysm = getattr(geo.LatticeSystem, system)
+    tmax = stats._max_misorientation(sysm)
+    vals, err = [], None
+    for i in range(tmax):
+        try:
+            vals.append(float(stats.misorientations_random(i, i + 1, sysm)))
+        except (Exception, AssertionError) as e:  # noqa: BLE001
+            err = (i, type(e).__name__)
+            break
+    sess.satisfiable(f"theory density[{system}]: reach", [])
+    tag = f"theory density[{system}]"
+    q = sess.prove(f"{tag}: defined on every 1-degree bin of [0, {tmax}]", [], z3.BoolVal(err is None))
+    if not q.holds:
+        sess.cex.append({"name": q.name, "replay": "vf.props.C14:replay_theory", "case": {"system": system},
+                         "cls": {"kind": "theoretical random-misorientation density raises inside [0, theta_max]", "system": system, "first_failing_bin": err[0]}})
+        return
+    q = sess.prove(f"{tag}: finite and non-negative on every bin", [], z3.BoolVal(bool(np.all(np.isfinite(vals)) and min(vals) >= -1e-12)))
+    if not q.holds:
+        sess.cex.append({"name": q.name, "replay": "vf.props.C14:replay_theory", "case": {"system": system},
+                         "cls": {"kind": "theoretical random-misorientation density negative or not finite", "system": system}})
+    total = float(np.sum(vals))
+    sess.notes.append(f"{tag}: sum over 1-degree bins = {total:.6f}")
+    q = sess.prove(f"{tag}: integrates to 1 over [0, {tmax}] within 1e-3 (sum over the bins = {total:.4f})", [], z3.BoolVal(abs(total - 1) <= 1e-3))
+    if not q.holds:
+        sess.cex.append({"name": q.name, "replay": "vf.props.C14:replay_theory", "case": {"system": system},
+                         "cls": {"kind": "theoretical random-misorientation density does not integrate to 1 over [0, theta_max]", "system": system, "integral": round(total, 2)}})
+
+
+def replay_theory(case):
+    """Fresh interpreter, public functions: trapezoid sums of misorientations_random at 1 and 0.1 degree."""
+    import numpy as np
+    from pydrex import geometry as geo
+    from pydrex import stats
+
+    sysm = getattr(geo.LatticeSystem, case["system"])
+    tmax = stats._max_misorientation(sysm)
+    try:
+        coarse = [stats.misorientations_random(i, i + 1, sysm) for i in range(tmax)]
+        fine = [stats.misorientations_random(i / 10, (i + 1) / 10, sysm) * 0.1 for i in range(10 * tmax)]
+    except AssertionError as e:
+        return {"reproduced": True, "detail": f"misorientations_random raises AssertionError inside [0, {tmax}] for {case['system']}: {e!r}"}
+    bad = abs(sum(coarse) - 1) > 1e-3 or abs(sum(fine) - 1) > 1e-3 or min(coarse) < -1e-12 or not np.all(np.isfinite(coarse))
+    return {"reproduced": bool(bad), "detail": {"theta_max": tmax, "sum_1deg": float(sum(coarse)), "sum_0.1deg": float(sum(fine)), "min": float(min(coarse))}}
+
+
 def default_cex(name):
     """Generic public-API replay for verdicts that carry no more specific counterexample."""
+    if name.startswith("index formula"):
+        return {"replay": "vf.props.C14:replay_index_formula", "case": {}, "cls": {"kind": "M-index is not (theta_max / 2k) sum |theory - observed|"}}
     if name.startswith("batched"):
         return {"replay": "vf.props.C14:replay_batched", "case": {}, "cls": {"kind": "batched M-index deviates from the per-snapshot values"}}
     return {"replay": "vf.props.replays:c14_triclinic", "case": {}, "cls": {"kind": "triclinic misorientation pipeline not invariant"}}
